@@ -1,6 +1,7 @@
 import VivDriver.JsonIO
 import VivModel.Sched
 import VivModel.StepGraph
+import VivModel.Proto
 open Lean Viv Viv.Sched
 
 /-! Driver for the scheduler model: a scenario (behaviour specs, store, calls) → the event log. -/
@@ -164,6 +165,17 @@ def handle (j : Json) : Except String Json := do
         out := out.push (Json.arr ((StepGraph.layers g).map (fun l => Json.arr (l.map pathToJson).toArray)).toArray)
       | none => out := out.push (Json.str "error")
     return Json.arr out
+  | "proto" =>
+    let reqs ← (← getArr j "reqs").toList.mapM fun r => do
+      match ← r.getStr? with
+      | "send" => pure (Viv.Proto.Req.send "next_update")
+      | "get" => pure Viv.Proto.Req.get
+      | "stop" => pure Viv.Proto.Req.stop
+      | _ => throw "bad proto request"
+    match Viv.Proto.run Viv.Proto.fresh reqs with
+    | .ok s => return Json.mkObj [("ok", Json.mkObj [("ended", Json.bool s.ended), ("alive", Json.bool s.alive),
+        ("joined", Json.bool s.joined), ("unread", natJ s.toParent.length)])]
+    | .error e => return Json.mkObj [("err", Json.str (reprStr e))]
   | _ => throw s!"unknown op {op}"
 
 def main : IO Unit := lineLoop handle
